@@ -99,16 +99,18 @@ Classes == H3Classes \cup H0Classes
 --------------------------------------------------------------------------
 (* State.  req / push phases are strings "<headers state>[.<parser phase>]":
    init | hdrs | trl, then optionally .mid (a partial frame header is
-   buffered) .data (inside a DATA frame) .blocked (QPACK-blocked) .wt
-   (WebTransport stream mode); "fin" = the peer's FIN was delivered. *)
+   buffered) .data (inside a DATA frame) .blocked (QPACK-blocked) .bfin
+   (QPACK-blocked and the peer's FIN already delivered) .wt (WebTransport
+   stream mode); "fin" = the peer's FIN was delivered, nothing pending. *)
 AllCtrl == {"none", "open", "openMid", "set", "setMid"}
 AllEnc == {"none", "open", "ins"}
-AllReq == {"init", "init.mid", "init.blocked", "init.wt", "hdrs", "hdrs.mid", "hdrs.data", "hdrs.blocked",
-           "trl", "trl.mid", "fin"}
+AllReq == {"init", "init.mid", "init.blocked", "init.bfin", "init.wt", "hdrs", "hdrs.mid", "hdrs.data",
+           "hdrs.blocked", "hdrs.bfin", "trl", "trl.mid", "fin"}
 AllPush == {"none", "type", "open", "hdrs"}
-ReqBlocked(r) == r \in {"init.blocked", "hdrs.blocked"}
-ReqH(r) == CASE r \in {"init", "init.mid", "init.blocked", "init.wt"} -> "init"
-             [] r \in {"hdrs", "hdrs.mid", "hdrs.data", "hdrs.blocked"} -> "hdrs"
+ReqBlocked(r) == r \in {"init.blocked", "hdrs.blocked", "init.bfin", "hdrs.bfin"}
+ReqFinished(r) == r \in {"fin", "init.bfin", "hdrs.bfin"}     \* nothing can follow on the stream
+ReqH(r) == CASE r \in {"init", "init.mid", "init.blocked", "init.bfin", "init.wt"} -> "init"
+             [] r \in {"hdrs", "hdrs.mid", "hdrs.data", "hdrs.blocked", "hdrs.bfin"} -> "hdrs"
              [] r \in {"trl", "trl.mid"} -> "trl"
              [] OTHER -> "fin"
 ReqP(r) == CASE r \in {"init", "hdrs", "trl"} -> "idle"
@@ -144,7 +146,7 @@ TargetEnabled(st, t) ==
        /\ CASE t = "ctrl" -> st.ctrl # "none"
             [] t = "enc"  -> st.enc # "none"
             [] t = "dec"  -> st.dec
-            [] t = "req"  -> st.req # "fin"
+            [] t = "req"  -> ~ReqFinished(st.req)
             [] t = "push" -> st.role = "client" /\ st.push # "none"
             [] OTHER -> TRUE
 Enabled(st, c) == c \in Classes /\ TargetEnabled(st, c.t)
@@ -270,14 +272,17 @@ OpenEncoder   == H3 /\ Full /\ s.enc = "none" /\ "open" \in EncPhases /\ Set("en
 EncoderInsert == H3 /\ Full /\ s.enc = "open" /\ "ins" \in EncPhases
                  /\ s' = [s EXCEPT !.enc = "ins",
                                    !.req = CASE s.req = "init.blocked" -> "hdrs"
-                                             [] s.req = "hdrs.blocked" -> "trl" [] OTHER -> s.req]
+                                             [] s.req = "hdrs.blocked" -> "trl"
+                                             [] s.req \in {"init.bfin", "hdrs.bfin"} -> "fin"
+                                             [] OTHER -> s.req]
                  /\ s'.req \in ReqPhases
 OpenDecoder   == H3 /\ Full /\ ~s.dec /\ TRUE \in DecPhases /\ Set("dec", TRUE)
 ReqStep(from, to) == H3 /\ Full /\ s.req = from /\ to \in ReqPhases /\ Set("req", to)
 ReqPrefix == \/ ReqStep("init", "hdrs") \/ ReqStep("hdrs", "trl") \/ ReqStep("init", "fin")
              \/ ReqStep("init", "init.mid") \/ ReqStep("hdrs", "hdrs.mid") \/ ReqStep("trl", "trl.mid")
              \/ ReqStep("hdrs", "hdrs.data") \/ ReqStep("init", "init.wt")
-             \/ (s.enc # "ins" /\ (ReqStep("init", "init.blocked") \/ ReqStep("hdrs", "hdrs.blocked")))
+             \/ (s.enc # "ins" /\ (\/ ReqStep("init", "init.blocked") \/ ReqStep("hdrs", "hdrs.blocked")
+                                   \/ ReqStep("init", "init.bfin") \/ ReqStep("hdrs", "hdrs.bfin")))
 PushStep(to) == H3 /\ Full /\ s.role = "client" /\ s.push = "none" /\ to \in PushPhases /\ Set("push", to)
 PushPrefix == PushStep("type") \/ PushStep("open") \/ PushStep("hdrs")
 H0Step(from, to) == s.layer = "h0" /\ s.req = from /\ to \in ReqPhases /\ Set("req", to)
